@@ -296,7 +296,8 @@ impl Property for C03 {
     }
 
     fn generate(rng: &mut Rng, _tier: Tier) -> Trace {
-        let cfg = ProdCfg::parser_default(rng);
+        let mut cfg = ProdCfg::parser_default(rng);
+        cfg.giant = true;
         let stream = gen_stream(rng, cfg);
         let fault_free = rng.chance(15, 100);
         let faults = if fault_free {
@@ -309,7 +310,8 @@ impl Property for C03 {
             let n = rng.range(1, 3) as usize;
             faults::gen_faults(rng, &stream, n, enabled)
         };
-        let sweep = if rng.chance(1, 25) && !stream.insts.is_empty() {
+        let small = stream.insts.len() < 64 && stream.insts.iter().all(|i| i.ops.len() < 64 && i.ops.iter().all(|o| !matches!(o, MOp::S(st) if st.len() > 256)));
+        let sweep = if small && rng.chance(1, 25) && !stream.insts.is_empty() {
             Sweep::All(rng.usize_below(stream.insts.len()))
         } else {
             Sweep::None
@@ -418,7 +420,7 @@ pub fn shrink_stream_trace(t: &Trace) -> Vec<Trace> {
         out.push(c);
     }
     let n = t.stream.insts.len();
-    if n > 1 {
+    if n > 1 && n <= 300 {
         // drop the second half / first half
         for (a, b) in [(n / 2, n), (0, n / 2)] {
             let mut c = t.clone();
@@ -431,14 +433,20 @@ pub fn shrink_stream_trace(t: &Trace) -> Vec<Trace> {
             out.push(c);
         }
     }
-    for j in (0..n).rev() {
+    for (a, b) in shrink_chunks(n) {
+        let mut c = t.clone();
+        c.stream.insts.drain(a..b);
+        c.faults.clear();
+        out.push(c);
+    }
+    for j in shrink_indices(n) {
         let mut c = t.clone();
         c.stream.insts.remove(j);
         c.faults = faults::reindex_after_remove(&t.faults, j);
         out.push(c);
     }
     // simplify operands: strings -> "", drop trailing operand
-    for j in 0..n {
+    for j in 0..n.min(300) {
         let inst = &t.stream.insts[j];
         for (k, o) in inst.ops.iter().enumerate() {
             if let MOp::S(s) = o {
